@@ -681,3 +681,61 @@ def r_conn(P, R):
     R.floor(f'R-CONN encodings for {R.prop}', n,
             2 * len(targets.get(R.prop, [])))
 r_conn.NAME = 'R-CONN'
+
+
+def r_quant_guard(P, R):
+    """The arm that keeps the variable of a level is entered exactly when
+    the level is not quantified (`<level> in qvars` is false)."""
+    targets = {'C03': [('dd.bdd.BDD._quantify', 'find_or_add')],
+               'C13': [('dd.bdd._image', 'ite')]}
+    n = 0
+    for q, sink in targets.get(R.prop, []):
+        f = P.func(q)
+        plist = pa.function_paths(f.node)
+        bad = None
+        keep = 0
+        for path in plist:
+            member = None     # truth of `<x> in qvars` on this path
+            other = []
+            for it in path:
+                if it[0] == 'test':
+                    t = it[1]
+                    if isinstance(t, ast.Compare) and len(
+                            t.ops) == 1 and isinstance(
+                                t.ops[0], (ast.In, ast.NotIn)) and \
+                            au.is_name(t.comparators[0], 'qvars') and \
+                            isinstance(t.left, ast.Name):
+                        val = it[2] if isinstance(
+                            t.ops[0], ast.In) else not it[2]
+                        member = val
+                    elif 'qvars' in au.names_loaded(t):
+                        other.append(it)
+                if it[0] == 'stmt' and isinstance(it[1], ast.Assign):
+                    c = it[1].value
+                    is_keep = isinstance(c, ast.Call) and au.call_name(
+                        c) == sink and len(c.args) == 3 and all(
+                            au.const_int(a) is None for a in c.args[1:])
+                    if is_keep:
+                        keep += 1
+                        if member is not False:
+                            bad = (path, c, other)
+        n += 1
+        if bad:
+            path, c, other = bad
+            why = (f'under the composite test '
+                   f'`{au.short(other[0][1])}`' if other else
+                   'without a test of the level against qvars')
+            R.violation(
+                'R-CONN', 'quantified-level-kept', q, sink,
+                f'`{au.short(c, 60)}` keeps the variable of the current '
+                f'level in the result {why}: a level that is in qvars can '
+                'reach this arm and is then not quantified',
+                unit=f.unit.rel, line=c.lineno, path=pa.describe(path))
+        elif keep:
+            R.holds('R-CONN', q, f'the variable of a level is kept only '
+                    f'when `level in qvars` is false ({keep} path(s))')
+        else:
+            R.undecided('R-CONN', q, 'keep arm', 'not found')
+    R.floor(f'R-CONN keep-arm guards for {R.prop}', n,
+            len(targets.get(R.prop, [])))
+r_quant_guard.NAME = 'R-CONN(quantified levels never kept)'
